@@ -783,7 +783,11 @@ func wfHeapAxiom(h, fullSort, next string) string {
 		if w == "" {
 			return ""
 		}
-		return fmt.Sprintf("(assert (forall ((r Ref)) (! %s :pattern ((select %s r)))))", w, h)
+		// only for allocated r: what a heap version holds at a not-yet-allocated reference is junk, and it is
+		// exactly there that a callee with "modifies nothing" puts the fields of the objects it allocates
+		// (the caller keeps the heap version); demanding allocated contents there contradicted every
+		// postcondition that returns a fresh object with fresh sub-objects and made such paths vacuous
+		return fmt.Sprintf("(assert (forall ((r Ref)) (! (=> (alloc r %s) %s) :pattern ((select %s r)))))", next, w, h)
 	}
 	// map value heap: (Array K V)
 	if strings.HasPrefix(inner, "(Array ") {
@@ -793,7 +797,7 @@ func wfHeapAxiom(h, fullSort, next string) string {
 			if w == "" {
 				return ""
 			}
-			return fmt.Sprintf("(assert (forall ((r Ref) (k %s)) (! %s :pattern ((select (select %s r) k)))))", kv[0], w, h)
+			return fmt.Sprintf("(assert (forall ((r Ref) (k %s)) (! (=> (alloc r %s) %s) :pattern ((select (select %s r) k)))))", kv[0], next, w, h)
 		}
 	}
 	return ""
